@@ -223,7 +223,7 @@ def check(repo, rep, tier):
     # registry order
     reordered = [e for s, _st, _p in outs for e in s.events if e[0] == "reordered"]
     if reordered:
-        r2.violation(loc(reordered[0][2]), RT, norm(reordered[0][2].iter), "the registry is not scanned in its own order: "
+        r2.violation(loc(reordered[0][2]), RT, norm(reordered[0][2].iter), "the registry is not scanned in full and in its own order: "
                      "'first match' no longer means the first registry row", "first/order")
     else:
         r2.ok(loc(first_stmt), RT, "every loop scans the registry in table order")
